@@ -30,7 +30,9 @@ ASSUMPTIONS = [
     "a crash after all declared content-length bytes were delivered may look complete",
 ]
 T_BIG = 100000.0
-HOW = ["raise", "return", "cancel", "raise_group"]
+# "bad_message": the failure is the error the server raises into one of the application's own
+# sends (an invalid message for the state), which the application does not handle
+HOW = ["raise", "return", "cancel", "raise_group", "bad_message"]
 
 
 @st.composite
@@ -86,6 +88,15 @@ def crashed_program(case: Dict[str, Any], k: int) -> List[list]:
         prog.append(["raise_group"])
     elif how == "cancel":
         prog.append(["cancel_self"])
+    elif how == "bad_message":
+        if case["ctx"].startswith("ws"):
+            prog.append(["send", {"type": "websocket.bogus"}])
+        elif phase(case, k) == "before_start":
+            prog.append(["send", {"type": "http.response.start", "status": 200,
+                                  "headers": [["x-bad", "line\nbreak"]]}])
+        else:
+            prog.append(["send", {"type": "http.response.start", "status": 200, "headers": []}])
+        prog.append(["raise", "RuntimeError"])  # not reached: the send above raises
     else:
         prog.append(["return"])
     return prog
@@ -199,7 +210,7 @@ def judge(case: Dict[str, Any], k: int, obs: Any) -> None:
     errlogs = [e for e in obs.log.events if e["kind"] == "errlog" and e["level"] == "exception"]
     nprog = len(base_program(case))
     crashed_inside = k < nprog
-    if case["how"] in ("raise", "raise_group") and len(errlogs) != 1:
+    if case["how"] in ("raise", "raise_group", "bad_message") and len(errlogs) != 1:
         raise Violation("failure_not_logged", f"{len(errlogs)} error records for a raising "
                         f"application", **tag)
     if ctx.startswith("ws"):
